@@ -287,3 +287,176 @@ pub fn run(args: &[String]) -> Value {
     drop(flush);
     json!({"panics": panics, "events": lines, "runs": runs, "steps": steps, "steps_agreeing_with_machine": agree, "skipped_ops": skipped, "frames": frames_total})
 }
+
+// ------------------------------------------------------------------------------------------------ receiver side
+use s2n_quic_transport::verif::PeerIdRegistry;
+
+fn pcid(idx: u64) -> connection::PeerId {
+    let mut b = [0u8; 8];
+    b[..4].copy_from_slice(&0xbeef_0000u32.to_be_bytes());
+    b[4..].copy_from_slice(&(idx as u32).to_be_bytes());
+    connection::PeerId::try_from_bytes(&b).unwrap()
+}
+fn ptoken(idx: u64) -> stateless_reset::Token {
+    let mut b = [0xa5u8; 16];
+    b[8..].copy_from_slice(&(idx + 1).to_be_bytes());
+    b.into()
+}
+
+struct PReg { r: PeerIdRegistry, fb: OutgoingFrameBuffer, max_idx: u64, seq_of_cid: std::collections::HashMap<u64, u64> }
+
+impl PReg {
+    fn new(rotate: bool, idgen: &mut InternalConnectionIdGenerator) -> PReg {
+        let mut rg = random::testing::Generator(9);
+        let mut mapper = ConnectionIdMapper::new(&mut rg, endpoint::Type::Server);
+        let r = mapper.create_server_peer_id_registry(idgen.generate_id(), pcid(0), rotate);
+        let mut fb = OutgoingFrameBuffer::new();
+        fb.set_max_packet_size(Some(1200));
+        PReg { r, fb, max_idx: 0, seq_of_cid: [(0u64, 0u64)].into_iter().collect() }
+    }
+    /// sequence numbers of the ids the registry calls usable (an id value is reported under the sequence number of the
+    /// accepted frame that carried it)
+    fn active(&self) -> Vec<u64> { let mut v: Vec<u64> = (0..=self.max_idx).filter(|i| self.r.is_active(&pcid(*i))).map(|i| *self.seq_of_cid.get(&i).unwrap_or(&(1000 + i))).collect(); v.sort(); v }
+    fn obs(&self) -> Value { json!({"active": self.active(), "tx": format!("{:?}", self.r.get_transmission_interest())}) }
+    fn newcid(&mut self, seq: u64, rpt: u64, cid: u64, tok: u64) -> Value {
+        self.max_idx = self.max_idx.max(cid).max(seq);
+        let res = match self.r.on_new_connection_id(&pcid(cid), seq as u32, rpt as u32, &ptoken(tok)) {
+            Ok(()) => { self.seq_of_cid.insert(cid, seq); "ok".to_string() }
+            Err(e) => match format!("{e:?}").as_str() { "InvalidNewConnectionId" => "invalid".into(), "ExceededActiveConnectionIdLimit" => "active_limit".into(), "ExceededRetiredConnectionIdLimit" => "retired_limit".into(), o => o.to_string() },
+        };
+        json!({"ev": "newcid", "seq": seq, "rpt": rpt, "cid": cid, "tok": tok, "result": res})
+    }
+    fn consume(&mut self) -> Value {
+        let got = self.r.consume_new_id_for_new_path().map(|id| (0..=self.max_idx).find(|i| pcid(*i) == id).map(|i| *self.seq_of_cid.get(&i).unwrap_or(&(1000 + i)) as i64).unwrap_or(-2)).unwrap_or(-1);
+        json!({"ev": "consume", "got": got})
+    }
+    fn transmit(&mut self, k: usize, lost_only: bool) -> Value {
+        self.fb.set_error_write_after_n_frames(k);
+        let before = self.fb.len();
+        let constraint = if lost_only { transmission::Constraint::RetransmissionOnly } else { transmission::Constraint::None };
+        let mut w = Writer::new(ts(0), &mut self.fb, constraint, transmission::Mode::Normal, endpoint::Type::Server);
+        let our_pn = { use s2n_quic_core::transmission::Writer as _; w.packet_number().as_u64() };
+        self.r.on_transmit(&mut w);
+        let mut frames = vec![];
+        for i in before..self.fb.len() {
+            let mut wf = self.fb.frames[i].clone();
+            if let FrameMut::RetireConnectionId(f) = wf.as_frame() { frames.push(f.sequence_number.as_u64() as i64); } else { frames.push(-1); }
+        }
+        self.fb.flush();
+        self.fb.set_error_write_after_n_frames(1 << 30);
+        json!({"ev": "transmit", "k": k, "lostonly": lost_only, "pn": our_pn, "frames": frames})
+    }
+    fn acked(&mut self, p: u64, lost: bool) -> Value {
+        let set = PacketNumberRange::new(pn(p), pn(p));
+        if lost { self.r.on_packet_loss(&set); } else { self.r.on_packet_ack(&set); }
+        json!({"ev": if lost { "lose" } else { "ack" }, "pn": p})
+    }
+}
+
+/// peerreg-run <behaviours.txt | random:<count>:<seed>> <out.ndjson>
+pub fn run_peer(args: &[String]) -> Value {
+    let source = &args[0];
+    let mut out = std::io::BufWriter::new(std::fs::File::create(&args[1]).unwrap());
+    let (mut lines, mut panics, mut runs, mut steps, mut agree, mut refused) = (0u64, 0u64, 0u64, 0u64, 0u64, 0u64);
+    let buf: RefCell<Vec<Value>> = RefCell::new(vec![]);
+    let emit = |v: Value| buf.borrow_mut().push(v);
+    let mut flush = |buf: &RefCell<Vec<Value>>, res: std::thread::Result<()>| {
+        use std::io::Write;
+        if let Err(e) = res {
+            panics += 1;
+            let m = if let Some(s) = e.downcast_ref::<&str>() { s.to_string() } else if let Some(s) = e.downcast_ref::<String>() { s.clone() } else { "panic".into() };
+            buf.borrow_mut().push(json!({"ev": "panic", "msg": m}));
+        }
+        for v in buf.borrow_mut().drain(..) { serde_json::to_writer(&mut out, &v).unwrap(); out.write_all(b"\n").unwrap(); lines += 1; }
+    };
+    std::panic::set_hook(Box::new(|_| {}));
+    let mut idgen = InternalConnectionIdGenerator::new();
+    if let Some(spec) = source.strip_prefix("random:") {
+        let mut it = spec.split(':');
+        let count: u64 = it.next().unwrap().parse().unwrap();
+        let seed: u64 = it.next().unwrap().parse().unwrap();
+        let mut rng = StdRng::seed_from_u64(seed ^ 0x9ee2);
+        for _ in 0..count {
+            let rotate = rng.random_bool(0.5);
+            let res = std::panic::catch_unwind(std::panic::AssertUnwindSafe(|| {
+                let mut a = PReg::new(rotate, &mut idgen);
+                runs += 1;
+                emit(merge(json!({"ev": "reset", "rotate": rotate}), a.obs()));
+                // what an honest issuer keeps track of: ids issued, its own retire_prior_to, ids it knows to be retired
+                let (mut next, mut rpt) = (1u64, 0u64);
+                let mut inflight: Vec<(u64, Vec<u64>)> = vec![];
+                let mut told_retired: Vec<u64> = vec![];   // RETIRE frames that reached the issuer (acknowledged packets)
+                let misbehaves = rng.random_bool(0.3);
+                let n = rng.random_range(10..120);
+                for _ in 0..n {
+                    let r = rng.random_range(0..100);
+                    let ev = if r < 30 {
+                        // a fresh id; the issuer sometimes raises retire_prior_to with it, and stays within the limit of 3
+                        // usable ids as far as it knows (ids below retire_prior_to and ids it was told are retired do not count)
+                        if rng.random_bool(0.12) { rpt = rng.random_range(rpt..=next); }
+                        if !(misbehaves && rng.random_bool(0.2)) {
+                            loop {
+                                let held: Vec<u64> = (0..next).filter(|k| *k >= rpt && !told_retired.contains(k)).collect();
+                                if held.len() < 3 { break; }
+                                rpt = held[0] + 1;
+                            }
+                        }
+                        let e = a.newcid(next, rpt, next, next);
+                        next += 1;
+                        e
+                    } else if r < 34 && next > 1 {
+                        // a late or repeated copy of an earlier frame, with the retire_prior_to of then or of now
+                        let s = rng.random_range(1..next);
+                        a.newcid(s, if rng.random_bool(0.5) { rpt.min(s) } else { rng.random_range(0..=rpt.min(s)) }, s, s)
+                    } else if r < 47 && next > 1 && misbehaves {
+                        // a misbehaving issuer: an id or token used twice, a sequence number with another id
+                        let s = rng.random_range(1..=next);
+                        let (c, t) = match rng.random_range(0..3) { 0 => (rng.random_range(0..next), s), 1 => (s, rng.random_range(1..next.max(2))), _ => (next + 7, s.min(next - 1).max(1)) };
+                        a.newcid(s, rpt.min(s), c, t)
+                    } else if r < 60 { a.consume() }
+                    else if r < 80 { let e = a.transmit([1usize, 2, 100][rng.random_range(0..3)], rng.random_bool(0.2)); if !e["frames"].as_array().unwrap().is_empty() { inflight.push((e["pn"].as_u64().unwrap(), e["frames"].as_array().unwrap().iter().filter_map(|x| x.as_u64()).collect())); } e }
+                    else { if inflight.is_empty() { continue; } let (p, seqs) = inflight.remove(rng.random_range(0..inflight.len())); let lost = rng.random_bool(0.35); if !lost { told_retired.extend(seqs); } a.acked(p, lost) };
+                    steps += 1;
+                    let failed = ev["ev"] == "newcid" && ev["result"] != "ok";
+                    emit(merge(ev, a.obs()));
+                    if failed { refused += 1; break; }
+                }
+            }));
+            flush(&buf, res);
+        }
+    } else {
+        let mut seen = std::collections::HashSet::new();
+        for line in std::fs::read_to_string(source).unwrap().lines() {
+            if !line.starts_with("\"[") || !seen.insert(line.to_string()) { continue; }
+            let inner: String = match serde_json::from_str(line) { Ok(v) => v, Err(_) => continue };
+            let h: Vec<Value> = match serde_json::from_str(&inner) { Ok(v) => v, Err(_) => continue };
+            let res = std::panic::catch_unwind(std::panic::AssertUnwindSafe(|| {
+                let mut a = PReg::new(h[0]["rotate"].as_bool().unwrap(), &mut idgen);
+                runs += 1;
+                emit(merge(json!({"ev": "reset", "rotate": h[0]["rotate"]}), a.obs()));
+                let mut pnmap: std::collections::HashMap<u64, u64> = Default::default();
+                let mut mpn = 1u64;
+                for st in &h[1..] {
+                    let op = st["op"].as_str().unwrap();
+                    let ev = match op {
+                        "newcid" => a.newcid(st["seq"].as_u64().unwrap(), st["rpt"].as_u64().unwrap(), st["cid"].as_u64().unwrap(), st["tok"].as_u64().unwrap()),
+                        "consume" => a.consume(),
+                        "transmit" => { let e = a.transmit(st["k"].as_u64().unwrap() as usize, st["lostonly"].as_bool().unwrap()); pnmap.insert(mpn, e["pn"].as_u64().unwrap()); mpn += 1; e }
+                        "ack" | "lose" => { let Some(p) = pnmap.get(&st["pn"].as_u64().unwrap()) else { continue }; a.acked(*p, op == "lose") }
+                        _ => continue,
+                    };
+                    steps += 1;
+                    let o = a.obs();
+                    let same_verdict = op != "newcid" || (ev["result"] == "ok") == (st["m"]["failed"] == "no");
+                    if o["active"] == st["m"]["active"] && same_verdict { agree += 1; }
+                    let failed = ev["ev"] == "newcid" && ev["result"] != "ok";
+                    emit(merge(ev, o));
+                    if failed { refused += 1; break; }
+                }
+            }));
+            flush(&buf, res);
+        }
+    }
+    drop(flush);
+    json!({"panics": panics, "events": lines, "runs": runs, "steps": steps, "steps_agreeing_with_machine": agree, "runs_ending_in_a_refused_frame": refused})
+}
